@@ -71,4 +71,12 @@ CHECKS = {
               "specification, compares them with the library's output and requires them to be equal."),
         note="ECMA-262 layout, -0, ordering and string minimality are the spec's; the nearest float64 and its shortest digits for literals with > 15 significant digits come from the strconv projection (trusted).",
         design_ref="5 (C13), 4.4"),
+    "C20": dict(
+        technique="depth limit as the MaxD parameter of the TLA+ automaton/Decoder/Encoder/Format models (TLC theorem with MaxD=3; real constant evaluated by TLC on logged executions); TLC-decided cycle reachability on logged Go heaps; crash-isolated drivers",
+        text=("Texts, call programs and Go values nested 9999..10002 deep (arrays, objects, mixes; depth reached by tokens, by one value, or split) are executed on every path - token reads, "
+              "ReadValue/SkipValue/IsValid/Unmarshal, Format/Compact/Canonicalize, WriteToken/WriteValue, Marshal - and TLC validates each logged outcome against the models instantiated with "
+              "MaxD = 10000. Go heaps given as graphs (slices, maps, struct pointers, pointers) are marshaled in isolated child processes; Trace_C20 computes whether a cycle is reachable from "
+              "the root and requires an error exactly then, and never a panic, crash or timeout. All other drivers log panics, which every trace spec rejects under C20."),
+        note="Known finding K2 (pointer/interface-only cycle overflows the stack) is listed in known_findings.json. Documented misuse panics are not provoked. Non-termination = 120 s timeout.",
+        design_ref="5 (C20)"),
 }
